@@ -1,6 +1,7 @@
 """C02 — requirements written into built metadata mean what pyproject declared."""
 from __future__ import annotations
 
+import re
 import shutil
 import tempfile
 from pathlib import Path
@@ -337,6 +338,194 @@ def gen_project(rnd: Any) -> dict[str, Any]:
     return {"deps": deps, "extras": used, "python": py, "toml": legacy_pyproject(deps, used, py)}
 
 
+# ------------------------------------------------------------------ PEP 621 tables
+SPEC_OPS = [">=", ">", "<", "<=", "~=", "!=", "=="]
+NAMES621 = ["requests", "Django", "zope.interface"]
+PY621 = [None, ">=3.8", ">=3.7,<4", ">=3.9,!=3.10.*", "~=3.8"]
+
+
+def gen_spec(rnd: Any) -> str:
+    from poetry.core.constraints.version import parse_constraint
+    while True:
+        cl = []
+        for _ in range(rnd.choice([0, 1, 1, 2])):
+            op = rnd.choice(SPEC_OPS)
+            v = rnd.choice(VERS)
+            if op == "~=" and "." not in v:
+                v += ".0"
+            cl.append(op + v)
+        t = ",".join(cl)
+        if not t or not parse_constraint(t).is_empty():
+            return t
+
+
+def gen_req621(rnd: Any, name: str, spec: str) -> str:
+    t = name
+    if rnd.random() < 0.2:
+        t += "[" + ",".join(rnd.sample(["x", "Y_z"], rnd.randint(1, 2))) + "]"
+    t += spec if rnd.random() < 0.7 else (" (" + spec + ")" if spec else "")
+    if rnd.random() < 0.5:
+        t += " ; " + G.marker(rnd, max_leaves=rnd.choice([1, 1, 2, 3]), no_extra=True)
+    return t
+
+
+def pep621_pyproject(pr: dict[str, Any]) -> str:
+    lines = ["[project]", 'name = "demo"', 'version = "1.0"', 'description = "d"']
+    if pr.get("python"):
+        lines.append(f"requires-python = {toml_str(pr['python'])}")
+    lines.append("dependencies = [" + ", ".join(toml_str(t) for t in pr["dependencies"]) + "]")
+    if pr["optional"]:
+        lines += ["", "[project.optional-dependencies]"]
+        for x, l in pr["optional"]:
+            lines.append(f"{toml_str(x)} = [" + ", ".join(toml_str(t) for t in l) + "]")
+    lines += ["", "[build-system]", 'requires = ["poetry-core"]', 'build-backend = "poetry.core.masonry.api"', ""]
+    return "\n".join(lines)
+
+
+def gen_project621(rnd: Any) -> dict[str, Any]:
+    """a [project] table in which one distribution may be declared several times: in `dependencies` under different
+    markers, in several extras, with the same or another specifier (entries that are equal under Dependency.__eq__ —
+    which ignores marker and extra membership — are the interesting ones)"""
+    specs: dict[str, list[str]] = {}
+
+    def entry() -> str:
+        n = rnd.choice(NAMES621)
+        prev = specs.setdefault(n, [])
+        sp = rnd.choice(prev) if prev and rnd.random() < 0.6 else gen_spec(rnd)
+        prev.append(sp)
+        return gen_req621(rnd, n if rnd.random() < 0.8 else n.upper().replace(".", "_"), sp)
+
+    deps = [entry() for _ in range(rnd.randint(0, 4))]
+    opt = [(x, [entry() for _ in range(rnd.randint(1, 3))]) for x in rnd.sample(EXTRA_NAMES, rnd.randint(0, 2))]
+    if not deps and not opt:
+        deps = [entry()]
+    pr: dict[str, Any] = {"dependencies": deps, "optional": opt, "python": rnd.choice(PY621)}
+    pr["toml"] = pep621_pyproject(pr)
+    return pr
+
+
+def run_projects621(ctx: core.Ctx, projects: list[dict[str, Any]], stream: str) -> None:
+    """PEP 621 tables: (a) model (op dep621: create_from_pep_508 + the factory's optional/_in_extras + selection + to_pep_508,
+    `Proj621.requiresDist` = every entry's own line in table order) vs the real Factory -> Metadata pipeline, entry by entry
+    and as a whole list; (b) oracle: for every distribution, candidate version, environment and set of active extras the
+    reference selects SOME emitted line exactly when it selects SOME declared entry."""
+    from poetry.core.constraints.version import parse_constraint
+    from poetry.core.factory import Factory
+    from poetry.core.masonry.metadata import Metadata
+    from packaging.utils import canonicalize_name
+    tmp = Path(tempfile.mkdtemp(prefix="c02p_"))
+    dis = 0
+    try:
+        built = []
+        for i, pr in enumerate(projects):
+            root = tmp / f"p{i}"
+            (root / "demo").mkdir(parents=True)
+            (root / "demo" / "__init__.py").write_text("")
+            (root / "pyproject.toml").write_text(pr["toml"], encoding="utf-8")
+            MC.clear_caches()
+            try:
+                poetry = Factory().create_poetry(root)
+                meta = Metadata.from_package(poetry.package)
+                built.append((pr, meta, poetry.package))
+            except Exception as ex:  # noqa: BLE001
+                ctx.case("p621:" + pr["toml"], nontrivial=False)
+                ctx.count("project621:rejected:" + type(ex).__name__)
+        lines, plan, reqs, rplan = [], [], [], []
+        for pr, meta, pkg in built:
+            ents = [(t, None) for t in pr["dependencies"]] + [(t, x) for x, l in pr["optional"] for t in l]
+            exnames = [x for x, _ in pr["optional"]]
+            exsets = [[]] + [[x] for x in exnames] + ([exnames] if len(exnames) > 1 else [])
+            envs = [dict(e, extra=list(ex)) for e in G.env_grid(ctx.rng, 8) for ex in exsets]
+            eenc = [G.enc_env(e) for e in envs[:10]]
+            for t, x in ents:
+                lines.append(core.line("dep621", t, opt(x), *eenc))
+            plan.append((pr, meta, pkg, ents, envs))
+            # oracle requests: every declared entry and every emitted line on the same cases
+            by_name: dict[str, list[tuple[str, Any]]] = {}
+            for t, x in ents:
+                nm = canonicalize_name(re.split(r"[\s\[(<>=!~;]", t.strip(), maxsplit=1)[0])
+                by_name.setdefault(nm, []).append((t, x))
+            for nm, group in by_name.items():
+                bounds = []
+                for t, _ in group:
+                    sp = re.sub(r"^[^\s\[(<>=!~;]+(\[[^\]]*\])?", "", t.split(";")[0]).strip().strip("()")
+                    bounds += V.bounds(parse_constraint(sp or "*"))
+                cands = []
+                for ct in V.probe_strings(ctx.rng, [b.text for b in bounds], n_extra=4)[:16]:
+                    pv = V.parse_probe(ct)
+                    if pv is not None and not pv.is_local() and V.is_regular(pv, bounds):
+                        cands.append(pv.text)
+                cases = [[cv, e] for cv in cands[:8] for e in envs]
+                emitted = [ln for ln in meta.requires_dist
+                           if canonicalize_name(re.split(r"[\s\[(<>=!~;@]", ln.strip(), maxsplit=1)[0]) == nm]
+                for t, _ in group:
+                    reqs.append({"op": "reqtok", "s": t, "cases": cases})
+                for ln in emitted:
+                    reqs.append({"op": "reqtok", "s": ln, "cases": cases})
+                rplan.append((pr, nm, group, emitted, cases))
+        out = core.run_driver(lines) if lines else []
+        oi = iter(out)
+        for pr, meta, pkg, ents, envs in plan:
+            mos = [next(oi) for _ in ents]
+            ctx.case("p621:" + pr["toml"], nontrivial=len(ents) > 1, sample={"toml": pr["toml"], "requires_dist": list(meta.requires_dist)} if len(ents) > 1 else None)
+            ctx.count("project621:entries:" + str(min(len(ents), 6)))
+            if any(mo[:2] == ["err", "unmodelled"] for mo in mos):
+                ctx.count("model621:unmodelled")
+                continue
+            if any(mo[0] != "ok" for mo in mos):
+                dis += 1
+                ctx.disagree(stream + ":model-raises", pr["toml"], ["built"], [mo[:2] for mo in mos if mo[0] != "ok"][0])
+                continue
+            want_lines = [mo[2][1:] for mo in mos if mo[1] == "1" and mo[2].startswith("=")]
+            if want_lines != list(meta.requires_dist):
+                dis += 1
+                ctx.disagree(stream + ":requires-dist-list", pr["toml"], list(meta.requires_dist), want_lines)
+            real = list(pkg.requires)
+            if len(real) == len(ents):
+                for (t, x), d, mo in zip(ents, real, mos):
+                    io = [MC.mdump(d.marker), ",".join(d.in_extras), MC.truth(d.marker, envs[:10])]
+                    ib, mb = MC.split_bits(io[2]), MC.split_bits(mo[5])
+                    if io[:2] != mo[3:5] or not (len(ib) == len(mb) and all(y == "u" or a == y for a, y in zip(ib, mb))):
+                        dis += 1
+                        ctx.disagree(stream + ":entry", [t, x], io, mo[3:6])
+            ctx.count("model621:projects")
+        res = iter(MC.ref_batch(reqs)) if reqs else iter([])
+        for pr, nm, group, emitted, cases in rplan:
+            decl = [next(res) for _ in group]
+            emit = [next(res) for _ in emitted]
+            wit = {"toml621": pr["toml"], "dist": nm}
+            bad = [(t, r) for (t, _), r in zip(group, decl) if r[0] != "ok"]
+            if bad:
+                ctx.count("oracle621:declared-rejected-by-reference")
+                continue
+            rej = [(ln, r) for ln, r in zip(emitted, emit) if r[0] != "ok"]
+            if rej:
+                ctx.violate(f"ref-rejects:{rej[0][0]}", f"Requires-Dist {rej[0][0]!r} is rejected by the reference parser: {rej[0][1]}", wit)
+                continue
+            for k, (cv, e) in enumerate(cases):
+                act = {canonicalize_name(z) for z in e["extra"]}
+                dv = [r[3][k] for (t, x), r in zip(group, decl) if x is None or canonicalize_name(x) in act]
+                ev = [r[3][k] for r in emit]
+                if any(not isinstance(b, bool) for b in dv + ev):
+                    continue
+                want, got = any(dv), any(ev)
+                if want != got:
+                    ctx.violate(f"selection621:{nm}:{sorted(t for t, _ in group)}",
+                                f"[project] declares {group} for {nm}; Requires-Dist has {emitted}: reference selects={got} for version {cv} on "
+                                f"py={e['python_full_version']} platform={e['sys_platform']} extras={e['extra']}, the declaration says {want}", wit)
+                    break
+                ctx.count("oracle621:compared")
+        for pr, meta, pkg in built:
+            want_extras = sorted({canonicalize_name(x) for x, _ in pr["optional"]})
+            if sorted(meta.provides_extra) != want_extras:
+                ctx.violate(f"provides-extra621:{want_extras}", f"Provides-Extra {meta.provides_extra} differs from declared {want_extras}", {"toml621": pr["toml"]})
+            if (meta.requires_python or None) != pr.get("python"):
+                ctx.violate(f"requires-python621:{pr.get('python')}", f"Requires-Python {meta.requires_python!r} differs from requires-python = {pr.get('python')!r}", {"toml621": pr["toml"]})
+    finally:
+        shutil.rmtree(tmp, ignore_errors=True)
+    ctx.stream(stream, len(projects), dis)
+
+
 CORPUS_DEPS = [
     {"name": "a1", "version": "^1.2", "python": "^3"}, {"name": "a2", "version": ">=1,<2", "python": ">=3.8,<3.10", "platform": "linux"},
     {"name": "a3", "version": "~1.2", "markers": 'sys_platform == "win32" or os_name == "nt"', "python": "~3.9"},
@@ -348,12 +537,30 @@ CORPUS_DEPS = [
 ]
 
 
+def mk621(deps: list[str], optional: list[tuple[str, list[str]]], python: str | None = ">=3.7") -> dict[str, Any]:
+    pr: dict[str, Any] = {"dependencies": deps, "optional": optional, "python": python}
+    pr["toml"] = pep621_pyproject(pr)
+    return pr
+
+
+CORPUS_621 = [
+    mk621(['colorama>=0.4 ; sys_platform == "win32"', 'colorama>=0.4 ; python_version < "3.8"', "tomli>=2.0"],
+          [("test", ["pytest>=7.0", "coverage>=7.0"]), ("dev", ["pytest>=7.0", "black>=23.0"])]),
+    mk621(["requests>=2", "requests>=2"], []),
+    mk621(["Django (>=4) ; os_name == 'nt'"], [("a", ["django>=4"]), ("foo-bar", ["DJANGO>=4 ; os_name != 'nt'"])], None),
+]
+
+
 def correspondence(ctx: core.Ctx) -> None:
     corpus = [{"deps": [d], "extras": d.get("in_extras", []), "python": ">=3.6", "toml": legacy_pyproject([d], d.get("in_extras", []), ">=3.6")} for d in CORPUS_DEPS]
     run_projects(ctx, corpus, "corpus")
     projects = [gen_project(ctx.rng) for _ in range(ctx.budget(220, 6000))]
     for k in range(0, len(projects), 250):
         run_projects(ctx, projects[k:k + 250], "gen")
+    run_projects621(ctx, CORPUS_621, "corpus621")
+    p621 = [gen_project621(ctx.rng) for _ in range(ctx.budget(160, 4000))]
+    for k in range(0, len(p621), 250):
+        run_projects621(ctx, p621[k:k + 250], "gen621")
 
 
 def search(ctx: core.Ctx) -> None:
@@ -362,11 +569,24 @@ def search(ctx: core.Ctx) -> None:
         run_projects(ctx, projects[k:k + 250], "search-gen")
         if [v for v in ctx.violations if v.key != KNOWN_SINGLE]:
             return
+    p621 = [gen_project621(ctx.rng) for _ in range(1200)]
+    for k in range(0, len(p621), 250):
+        run_projects621(ctx, p621[k:k + 250], "search-gen621")
+        if [v for v in ctx.violations if v.key != KNOWN_SINGLE]:
+            return
 
 
 def replay(ctx: core.Ctx, payload: dict[str, Any]) -> bool:
     w = payload.get("witness", payload)
     before = len(ctx.violations)
+    if "toml621" in w:
+        m = re.search(r"^dependencies = (\[.*\])$", w["toml621"], re.M)
+        import tomllib
+        doc = tomllib.loads(w["toml621"])["project"]
+        pr = mk621(list(doc.get("dependencies", [])), [(x, list(l)) for x, l in doc.get("optional-dependencies", {}).items()], doc.get("requires-python"))
+        for _ in range(3):
+            run_projects621(ctx, [pr], "replay621")
+        return len(ctx.violations) > before
     if "python" in w and "dep_decl" not in w:
         pr = {"deps": [], "extras": [], "python": w["python"], "toml": legacy_pyproject([], [], w["python"])}
         run_projects(ctx, [pr], "replay")
